@@ -536,6 +536,11 @@ pub fn generate(profile_name: &str, seed: u64) -> Scenario {
         sc.profile = profile_name.to_string();
         return sc;
     }
+    if profile_name == "traffic" && seed % 24 == 13 {
+        let mut sc = generate_callback(seed);
+        sc.profile = profile_name.to_string();
+        return sc;
+    }
     if profile_name == "kill" && seed % 24 == 9 {
         let mut sc = generate_heldsend(seed);
         sc.profile = profile_name.to_string();
@@ -1263,6 +1268,64 @@ fn generate_stopcancel(seed: u64) -> Scenario {
 /// A sender parked on a full mailbox is handed the slot the actor frees - but its task is busy elsewhere and does not poll
 /// the send again for a while. Then the actor is killed (or stopped, or orphaned). The reserved slot belongs to nobody the
 /// actor has to wait for: kill() takes effect at once.
+/// Callbacks: a requester (actor 1) asks a worker (actor 0); while serving that request the worker TELLS the requester -
+/// progress reports, and perhaps a final stop() - from inside its handler. The requester is suspended in its ask on the worker
+/// all the while. Tells are tells: accepted in program order, ahead of whatever the same sender (or anybody) does afterwards.
+fn generate_callback(seed: u64) -> Scenario {
+    let mut r = Rng::new(seed ^ 0xCA11);
+    let mut uid = 0u64;
+    let mut nu = || {
+        uid += 1;
+        uid
+    };
+    let plain = |u: u64| Body::plain(u);
+    let nrep = 1 + r.below(3);
+    let mut wsteps: Vec<Step> = vec![];
+    if r.chance(40) {
+        wsteps.push(Step::Sleep(2));
+    }
+    for _ in 0..nrep {
+        wsteps.push(Step::Peer { target: 1, kind: if r.chance(80) { SendKind::Tell } else { SendKind::TellTo(20) }, mty: MTy::U, body: plain(nu()) });
+        if r.chance(25) {
+            wsteps.push(Step::Yield);
+        }
+    }
+    let stops = r.chance(50);
+    if stops {
+        wsteps.push(Step::StopPeer(1));
+    }
+    let work = Body { uid: nu(), flags: 0, steps: wsteps };
+    let request = Body { uid: nu(), flags: 0, steps: vec![Step::Peer { target: 0, kind: if r.chance(70) { SendKind::Ask } else { SendKind::AskTo(40) }, mty: MTy::U, body: work }] };
+    let spec = |cap: usize| ActorSpec { cap: Some(cap), start: HookScript::default(), run: vec![], stop: HookScript::default(), run_err_when_handled: None, in_peers: true };
+    // the requester does not drain its mailbox while it waits for the worker: room for every report, the stop marker and the
+    // third party's messages, or the worker's tell and the requester's ask would wait for each other (a deadlock made of a
+    // tell, which nothing detects and nothing promises to)
+    let actors = vec![spec(*r.pick(&[2usize, 4, 16])), spec(*r.pick(&[8usize, 16, 32]))];
+    let mut clients = vec![ClientSpec {
+        init: vec![Some(1), None, None, None],
+        ops: vec![ClientOp { pre: Pre::Sleep(2 * r.below(2)), op: Op::Send { slot: 0, kind: if r.chance(50) { SendKind::Ask } else { SendKind::Tell }, mty: MTy::U, body: request } }],
+        drop_at_end: true,
+    }];
+    // somebody else talks to the requester at the same time
+    let mut ops = vec![];
+    for i in 0..(1 + r.below(3)) {
+        ops.push(ClientOp { pre: if i == 0 { Pre::Sleep(2 * r.below(3)) } else if r.chance(50) { Pre::Yield } else { Pre::None }, op: Op::Send { slot: 0, kind: SendKind::Tell, mty: MTy::U, body: plain(nu()) } });
+    }
+    clients.push(ClientSpec { init: vec![Some(1), None, None, None], ops, drop_at_end: true });
+    Scenario {
+        seed,
+        pert: 0,
+        profile: "traffic".to_string(),
+        actors,
+        clients,
+        ngates: 1,
+        teardown: vec![Teardown::Stop, if stops { Teardown::DropAll } else { Teardown::Stop }],
+        sample_until: 41,
+        default_cap: 32,
+        fixed_timing: false,
+    }
+}
+
 fn generate_heldsend(seed: u64) -> Scenario {
     let mut r = Rng::new(seed ^ 0x4E1D);
     let cap = *r.pick(&[1usize, 1, 2]);
